@@ -231,6 +231,110 @@ class DryRun(object):
             shutil.rmtree(root, ignore_errors=True)
 
 
+class ThroughCompile(object):
+    case_timeout = 600
+    name = 'faults-while-compile-stores'
+    describe = ('MibCompiler.compile() storing through the real writers - a module it compiled, and a module it could only borrow - with '
+                'one fault of every kind at every I/O call of the store (positions taken from the fault-free trace): the destination '
+                'holds the previous or the complete new content, nothing else is left behind, and the status says what happened: '
+                'failed with the writer error whenever the store failed, compiled / borrowed only when the text is on disk')
+
+    def blocks(self, tier):
+        return [{'w': w, 'kind': k, 'dest': d} for w in ('file.json', 'py', 'py.nocompile') for k in ('compiled', 'borrowed')
+                for d in ('empty', 'old-content')]
+
+    def cases(self, block, tier):
+        yield dict(block)
+
+    def one(self, case, plan):
+        from mc import env
+        from pysmi.borrower.pyfile import PyFileBorrower
+        from pysmi.borrower.anyfile import AnyFileBorrower
+        from pysmi.reader.localfile import FileReader
+        root = scratch()
+        try:
+            js = case['w'] == 'file.json'
+            _, fname = make_writer(case['w'], root)
+            d = prepare(root, case['dest'], fname)
+            bdir = os.path.join(root, 'borrow')
+            os.mkdir(bdir)
+            with open(os.path.join(bdir, MODNAME + ('.json' if js else '.py')), 'w') as f:
+                f.write('# a borrowed copy\nborrowed = 1\n')
+            before = faultfs.snapshot(root)
+            w, fname = make_writer(case['w'], d)
+            texts = env.base_texts()
+            texts[MODNAME] = ('TEST-MIB DEFINITIONS ::= BEGIN\nIMPORTS enterprises FROM SNMPv2-SMI;\nx OBJECT IDENTIFIER ::= { enterprises 1 }\nEND\n'
+                              if case['kind'] == 'compiled' else 'TEST-MIB DEFINITIONS ::= BEGIN this does not parse END\n')
+            parser = env.shared_parser('smiV2')
+            parser.reset()
+            comp = env.MibCompiler(parser, env.make_codegen('json' if js else 'pysnmp'), w)
+            comp.addSources(env.DictReader(texts))
+            comp.addSearchers(env.StubSearcher(*env.BASE_NAMES))
+            reader = FileReader(bdir)
+            comp.addBorrowers(AnyFileBorrower(reader).setOptions(exts=['.json']) if js else PyFileBorrower(reader))
+            rec = faultfs.Recorder(plan)
+            escaped = None
+            with faultfs.Patched(rec):
+                try:
+                    res = comp.compile(MODNAME, ignoreErrors=True)
+                except BaseException as exc:   # noqa
+                    res, escaped = {}, exc
+            after = faultfs.snapshot(root)
+            rel = os.path.relpath(d, root)
+            key = os.path.normpath(os.path.join(rel, fname))
+            def settled(octets):
+                # the generated text names the moment it was made: two runs differ there and nowhere else
+                from mc.checks import C12
+                return None if octets is None else C12.mask(octets.decode('utf-8', 'replace'))
+            return {'trace': list(rec.trace), 'injected': list(rec.injected), 'status': res.get(MODNAME), 'escaped': escaped,
+                    'content': settled((after or {}).get(key)), 'old': settled((before or {}).get(key)), 'after': after, 'rel': rel,
+                    'key': key}
+        finally:
+            shutil.rmtree(root, ignore_errors=True)
+
+    def run_case(self, case):
+        clean = self.one(case, {})
+        want_status = case['kind']
+        sig = 'C13|compile-stores|%s|%s|%s' % (case['w'].split('.')[0], case['kind'], case['dest'])
+        if str(clean['status']) != want_status or clean['content'] is None:
+            return 'setup', [('%s|fault-free-run-does-not-store' % sig, '%r %r' % (clean['status'], getattr(clean['status'], 'error', None)))], 1
+        new = clean['content']
+        vs, seen, runs = [], set(), 1
+        for i, site in enumerate(clean['trace']):
+            for f in applicable(site):
+                r = self.one(case, {i: f})
+                runs += 1
+                st = r['status']
+                faults = '%s=%s' % (site.split('.')[-1], f)
+                cleanup_fault = site in ('os.unlink', 'os.access')
+                probs = []
+                if r['escaped'] is not None:
+                    probs.append(('exception-escapes-compile|%s|%s' % (type(r['escaped']).__name__, faults), repr(r['escaped'])[:200]))
+                elif str(st) == 'failed':
+                    if not isinstance(getattr(st, 'error', None), error.PySmiWriterError) and not cleanup_fault:
+                        probs.append(('failed-without-the-writer-error|%s' % faults, repr(getattr(st, 'error', None))))
+                    allowed = [r['old'], new] + ([None] if site == 'py_compile.compile' or case['w'] == 'py' else [])
+                    if r['content'] not in allowed:
+                        probs.append(('destination-partial-or-mixed|%s' % faults, repr((r['content'] or '')[:40])))
+                elif str(st) == want_status:
+                    if r['content'] != new and not (site == 'py_compile.compile' and r['content'] is None):
+                        probs.append(('reported-%s-but-the-text-is-not-on-disk|%s' % (want_status, faults),
+                                      'destination holds %r' % ((r['content'] or '')[:40],)))
+                else:
+                    probs.append(('status-%s|%s' % (st, faults), ''))
+                if not cleanup_fault:
+                    for k in sorted(r['after'] or {}):
+                        if os.path.normpath(os.path.dirname(k.rstrip('/'))) == os.path.normpath(r['rel']) and '__pycache__' not in k \
+                                and os.path.normpath(k.rstrip('/')) != r['key']:
+                            probs.append(('stray-entry-left-behind|%s' % faults, 'entry %s' % k))
+                for p_, d_ in probs:
+                    sg = '%s|%s' % (sig, p_)
+                    if sg not in seen:
+                        seen.add(sg)
+                        vs.append((sg, '%s\nfault at call %d of %r' % (d_, i, clean['trace'])))
+        return 'runs=%d' % runs, vs, (runs, runs - 1)
+
+
 class RealSizeLimit(object):
     name = 'real-write-failures'
     describe = ('write failures made by the operating system, not by a patched os.write: RLIMIT_FSIZE (with SIGXFSZ ignored: a '
@@ -467,4 +571,4 @@ class TwoWritersOneFault(object):
         return 'schedules=%d runs=%d' % (len(schedules), counters['runs']), vs, (counters['steps'], counters['runs'])
 
 
-FAMILIES = [SingleWriter(), DryRun(), TwoWriters(), TwoWritersOneFault(), RealSizeLimit()]
+FAMILIES = [SingleWriter(), DryRun(), TwoWriters(), TwoWritersOneFault(), RealSizeLimit(), ThroughCompile()]
